@@ -393,6 +393,11 @@ func (l *PartitionLog) uploadFlush(ctx context.Context, artifact *SegmentArtifac
 	})
 	if err := g.Wait(); err != nil {
 		l.mu.Lock()
+		// The drained batches already own their offsets and other producers may be
+		// waiting in Flush for them. Put them back at the head of the buffer so the
+		// next flush retries them; dropping them here would let a waiting Flush
+		// return nil for a batch that is in no segment.
+		l.buffer.Prepend(l.flushingBatches)
 		l.flushing = false
 		l.flushingBatches = nil
 		l.flushCond.Broadcast()
